@@ -52,6 +52,7 @@ def check(m, run):
     # the hull property rests on the basis values being the Cox-de Boor polynomials - non-negative on their span and summing to one (BF3, shared with C03)
     from .. import skel_drivers as _sdb
     _sdb.bf3(m, run)
+    _sdb.evx(m, run)      # ... and every evaluated point being the combination of exactly the degree + 1 (per direction) active control points with them (EVX, shared with C01)
     rs.iv4_deepcopy(m, run)
     run.floor('LY1.canonical-stride', 3, 'surface/volume evaluators')
 
